@@ -5,6 +5,7 @@ import Wee.Model.Hash
 import Wee.Model.Eval
 import Wee.Model.Search
 import Wee.Spec.Outcome
+import Wee.Model.Uci
 /-! Request handlers: for every request line the MODEL answer and the SPEC answer ("-" = no oracle). -/
 namespace Driver
 open Wee
@@ -415,6 +416,24 @@ def handle (line : String) : Out :=
       match (legalMoves s).find? fun r => r.1 == first with
       | Option.none => ⟨"-", "first-move-illegal"⟩
       | some r => ⟨"-", if Outcome.lostIn (n - 1) r.2 then "sound" else "first-move-loses-the-mate"⟩
+  | "uci" =>
+    -- uci <hex line> <searching 0|1> <artifact 0|1> <book 0|1> <fen...> : one step of the command loop
+    match fromHex parts[1]!, parseFenM (rest 5) with
+    | some line, some st =>
+      let sess : Uci.Sess := { pos := st, searching := parts[2]! == "1", artifact := parts[3]! == "1" }
+      match Uci.step (fun _ => parts[4]! == "1") sess line with
+      | Option.none => ⟨"panic", "-"⟩
+      | some (s', outs, quit) =>
+        let enc (o : Uci.Out) : String := match o with
+          | .line t => "line:" ++ toHex t
+          | .joinRunning => "join"
+          | .bookMove => "book"
+          | .searchStarted d t a => s!"search:{match d with | some n => toString n | Option.none => "-"}:{match t with | some n => toString n | Option.none => "-"}:{if a then 1 else 0}"
+          | .stderrState => "state"
+          | .stderrStatus => "status"
+        let b (x : Bool) : String := if x then "1" else "0"
+        ⟨s!"{b s'.searching} {b s'.artifact} {b quit} {(writeFen s'.pos).replace " " "_"} " ++ joinSp (outs.map enc), "-"⟩
+    | _, _ => ⟨"badrequest", "-"⟩
   | "linecheck" =>
     -- linecheck <raw,raw,...> <fen...>  (spec only): is the line legal move by move?
     let raws := (parts[1]!.splitOn ",").filterMap String.toNat?
